@@ -215,6 +215,18 @@ Definition hook_step (tbl : table) (h : Z) (s : state) (hk : hook) : state :=
 Definition fanout (tbl : table) (h : Z) (s : state) : state :=
   fold_left (hook_step tbl h) fanout_order s.
 
+(* A fan-out in which a step may raise.  The whole chain is one synchronous call (nested
+   emits); an exception raised by a listener of step [hk] propagates to the host's handler and
+   beyond: that step and every later one do not run. *)
+Fixpoint fold_until (raises : hook -> bool) (f : state -> hook -> state) (l : list hook) (s : state) : state :=
+  match l with
+  | [] => s
+  | hk :: r => if raises hk then s else fold_until raises f r (f s hk)
+  end.
+
+Definition fanout_raising (tbl : table) (raises : hook -> bool) (h : Z) (s : state) : state :=
+  fold_until raises (hook_step tbl h) fanout_order s.
+
 (* ------------------------------------------------------------------ operations *)
 Inductive op :=
 | Establish (h : Z)                 (* the link layer creates connection h (handle free in the controller) *)
